@@ -213,7 +213,9 @@ def result_fate(prog, fn, local, _seen=None):
                 if rv["rv"] == "discr":
                     matched = True
                 elif rv["rv"] in ("use", "cast") and not proj:
-                    if s["lhs"]["l"] == 0 and not s["lhs"]["p"]:
+                    if _killed_before_return(fn, s["lhs"]["l"], b):
+                        fates.add("overwritten")
+                    elif s["lhs"]["l"] == 0 and not s["lhs"]["p"]:
                         fates.add("returned")
                     else:
                         fates |= result_fate(prog, fn, s["lhs"]["l"], seen)
@@ -254,6 +256,23 @@ def result_fate(prog, fn, local, _seen=None):
     if not fates:
         fates.add("dropped")
     return fates
+
+
+def _killed_before_return(fn, local, def_block):
+    """The value stored into `local` at def_block can be overwritten by another (or the same, in a loop) definition of
+    that local before the function returns."""
+    if not fn.local_name(local) and local != 0:
+        return False            # compiler temporaries are single-use
+    after = fn.reachable(fn.normal_succs(def_block))
+    for (b, kind, payload) in fn.defs().get(local, []):
+        lhs = payload["lhs"] if kind == "assign" else payload["dest"]
+        if lhs["p"]:
+            continue
+        if b in after and (b != def_block or True):
+            # is a return still reachable from that other definition?  (always, unless it diverges)
+            if any(r in fn.reachable(b) for r in fn.return_blocks()):
+                return True
+    return False
 
 
 def _flows_to_err_return(prog, fn, local, seen):
@@ -306,7 +325,9 @@ def io_result_sites(prog, fn):
             continue
         if (t.get("callee") or "") in ("core::ops::try_trait::FromResidual::from_residual",):
             continue
-        if d["l"] == 0:
+        if _killed_before_return(fn, d["l"], b):
+            out.append((b, t, {"overwritten"}))
+        elif d["l"] == 0:
             out.append((b, t, {"returned"}))
         else:
             out.append((b, t, result_fate(prog, fn, d["l"])))
